@@ -342,7 +342,9 @@ def families(tier, seed):
 
 
 def main():
-    chk = Check("C15", "exploration")
+    chk = Check("C15", "other")
+    # deductive core: frame (ownership) contracts of the functions this property rests on (contracts/frames.py)
+    chk.run_frames()
     replace_exhaustive(chk)
     _cases = families(chk.tier, chk.seed)
     _results = driver.run_family(
